@@ -53,7 +53,7 @@ var FaultKinds = []string{"husb-missing", "wife-missing", "chil-missing", "husb-
 	"chil-empty", "no-name", "name-without-surname", "name-empty", "own-parent", "own-spouse", "own-grandparent", "duplicate-individual",
 	"duplicate-family", "individual-and-family-share-pointer", "family-without-members", "source-without-title", "famc-missing", "fams-missing",
 	"date-garbage", "date-empty", "date-partial", "date-reversed-range", "date-far-future", "surname-digit", "surname-symbol", "surname-multibyte",
-	"surname-only-punctuation", "only-faulty-people"}
+	"surname-only-punctuation", "only-faulty-people", "undated-people"}
 
 type indi struct {
 	ptr, given, sur  string
@@ -174,6 +174,9 @@ func Materialise(base int, faults []string) string {
 		case "surname-only-punctuation":
 			people[len(people)-1].sur = "?"
 			people[0].given = "(?)"
+		case "undated-people":
+			// the people the cyclic faults are built around have no birth, baptism, death or burial at all
+			people[0].birth, people[0].death, people[1].birth, people[1].death = "", "", "", ""
 		case "only-faulty-people":
 			// nobody with an ordinary surname is left: every index letter comes from a faulty record
 			for _, p := range people {
